@@ -8,9 +8,9 @@ import (
 	"testing"
 
 	"github.com/paulsonkoly/chess-3/board"
-	"github.com/paulsonkoly/chess-3/move"
 	"github.com/paulsonkoly/chess-3/uci"
 
+	"verif/harness/conv"
 	"verif/harness/eng"
 	"verif/harness/ev"
 	"verif/harness/gen"
@@ -149,9 +149,9 @@ func TestCheck(t *testing.T) {
 				for _, m := range p.Legal() {
 					raw := p.Make(m)
 					want := raw.Normalised()
-					rv := b.MakeMove(move.Move(m))
+					rv := b.MakeMove(conv.M(m))
 					got := b.FEN()
-					b.UndoMove(move.Move(m), rv)
+					b.UndoMove(conv.M(m), rv)
 					r.Eval(1)
 					features(lc, &p, m, &want, &raw)
 					if got != want.FEN() {
@@ -300,7 +300,7 @@ func history(r *ev.Run, lc *ev.Local, kind string, start ref.Pos, moves []string
 		}
 		raw := cur.Make(m)
 		want := raw.Normalised()
-		b.MakeMove(move.Move(m))
+		b.MakeMove(conv.M(m))
 		got := b.FEN()
 		r.Eval(1)
 		features(lc, &cur, m, &want, &raw)
